@@ -192,12 +192,12 @@ def project(cfg: CFG, labeler: Labeler, accept_exit=True, accept_xexit: Optional
             lab = edge_labeler(n.id, y, l) if edge_labeler else None
             nfa.add(src, lab, ins[y], n.id)
     nfa.start = ins[start if start is not None else cfg.entry]
-    if accept_exit:
+    if accept_exit and cfg.exit in outs:
         nfa.accept.add(outs[cfg.exit])
     for s in stop:
         if s in outs:
             nfa.accept.add(outs[s])
-    if accept_xexit is not None:
+    if accept_xexit is not None and cfg.xexit in outs:
         fin = nfa.new()
         nfa.add(outs[cfg.xexit], accept_xexit, fin, cfg.xexit)
         nfa.accept.add(fin)
@@ -413,11 +413,11 @@ def typestate(cfg: CFG, labeler: Labeler, delta: Callable[[str, str], str], init
         nid, st = key
         if nid == cfg.exit:
             if exit_ok is not None and not exit_ok(st):
-                return trace(key, 'normal exit in state %s' % st, st), len(prev), ntrans
+                return trace(key, 'normal exit in state %s' % (st,), st), len(prev), ntrans
             continue
         if nid == cfg.xexit:
             if xexit_ok is not None and not xexit_ok(st):
-                return trace(key, 'exceptional exit in state %s' % st, st), len(prev), ntrans
+                return trace(key, 'exceptional exit in state %s' % (st,), st), len(prev), ntrans
             continue
         bad = None
         st_mid = st
@@ -437,7 +437,7 @@ def typestate(cfg: CFG, labeler: Labeler, delta: Callable[[str, str], str], init
                     break
                 st_after = nxt
         if bad is not None:
-            return trace(key, 'event %s in state %s' % (bad, st_after), st_after), len(prev), ntrans
+            return trace(key, 'event %s in state %s' % (bad, (st_after,)), st_after), len(prev), ntrans
         for (y, l) in cfg.succ[nid]:
             s2 = st_after if (l != 'exc' or events_before_exc) else st_mid
             if edge_delta is not None:
